@@ -16,7 +16,15 @@
    database then refuses leaves the version behind; Version.restore is
    masterClass.get(masterID).set( **values)) and main.py (_SO_setValue / set).
    `hist` is a ghost component: the successive states of every master row,
-   extended by each successful update.  It plays no part in the behaviour. *)
+   extended by each successful update.  It plays no part in the behaviour.
+
+   Round 6: destroySelf of a master (main.py destroySelf: the `master`
+   ForeignKey of the version class has cascade=None, so the DELETE touches the
+   master table only: the versions stay, filed under an id that AUTOINCREMENT
+   never hands out again) and of a Version (one row of the version table
+   goes); Version.nextVersion() / getChangedFields().  Two more ghosts: `arch`
+   = every version ever archived, in id order (v_tbl without the deletions),
+   `gone` = the ids of the destroyed versions. *)
 From Coq Require Import List ZArith NArith Bool.
 From Model Require Import Events.
 Import ListNotations.
@@ -29,18 +37,29 @@ Record vstate := {
   m_next : Z;
   v_tbl : list vrow;                (* version rows in id order *)
   v_next : Z;
-  hist : list (Z * list kwargs)     (* ghost *)
+  hist : list (Z * list kwargs);    (* ghost *)
+  arch : list vrow;                 (* ghost: every version ever archived *)
+  gone : list Z                     (* ghost: ids of the destroyed versions *)
 }.
-Definition vinit : vstate := {| m_tbl := []; m_next := 1; v_tbl := []; v_next := 1; hist := [] |}.
+Definition vinit : vstate :=
+  {| m_tbl := []; m_next := 1; v_tbl := []; v_next := 1; hist := []; arch := []; gone := [] |}.
 
 Inductive vop :=
 | VCreate (kw : list (col * val))
 | VAssign (m : Z) (c : col) (v : val)        (* master.c = v *)
 | VSet (m : Z) (kw : list (col * val))       (* master.set( **kw) *)
 | VSetBad (m : Z) (kw : list (col * val))    (* master.set(zz=1, **kw): zz is neither a column nor an attribute *)
-| VRestore (vid : Z).                        (* VersionClass.get(vid).restore() *)
+| VRestore (vid : Z)                         (* VersionClass.get(vid).restore() *)
+| VDestroy (m : Z)                           (* master.destroySelf() *)
+| VDestroyVer (vid : Z)                      (* VersionClass.get(vid).destroySelf() *)
+| VNext (vid : Z)                            (* VersionClass.get(vid).nextVersion() *)
+| VChanged (vid : Z).                        (* VersionClass.get(vid).getChangedFields() *)
 
-Inductive voutcome := VDone | VExn (e : exn) | VNoHandle.
+Inductive voutcome :=
+| VDone | VExn (e : exn) | VNoHandle
+| VNextV (x : vrow)                 (* nextVersion() returned this version *)
+| VNextM (m : Z) (r : kwargs)       (* nextVersion() returned the master (id, row) *)
+| VFields (l : list col).           (* getChangedFields() *)
 
 Fixpoint row_of (m : Z) (t : list (Z * kwargs)) : option kwargs :=
   match t with
@@ -64,6 +83,72 @@ Fixpoint hist_push (m : Z) (r : kwargs) (h : list (Z * list kwargs)) : list (Z *
   | (i, l) :: rest => if Z.eqb m i then (i, l ++ [r]) :: rest else (i, l) :: hist_push m r rest
   end.
 Definition hist_of (m : Z) (st : vstate) : list kwargs := hist_get m (hist st).
+(* ghost views: everything ever archived for m; is this version still there *)
+Definition archived_of (m : Z) (st : vstate) : list vrow :=
+  filter (fun x => Z.eqb (v_master x) m) (arch st).
+Definition alive (g : list Z) (x : vrow) : bool := negb (existsb (Z.eqb (v_id x)) g).
+
+(* ---- Version.nextVersion / getChangedFields ----
+   nextVersion: SELECT ... WHERE master_id = self.masterID AND id > self.id
+   ORDER BY id; the first row if there is one, else self.master (a get() of
+   the master: SQLObjectNotFound when it was destroyed).  `t` is the version
+   table that SELECT reads, `mt` the master table of the version's connection. *)
+Inductive nres := NVer (x : vrow) | NMas (m : Z) (r : kwargs) | NNone.
+Definition later_of (ver : vrow) (t : list vrow) : list vrow :=
+  filter (fun x => Z.eqb (v_master x) (v_master ver) && Z.ltb (v_id ver) (v_id x)) t.
+Definition next_in (t : list vrow) (mt : list (Z * kwargs)) (ver : vrow) : nres :=
+  match later_of ver t with
+  | x :: _ => NVer x
+  | [] => match row_of (v_master ver) mt with Some r => NMas (v_master ver) r | None => NNone end
+  end.
+(* specification vocabulary: the successor of a version, given the part l2 of
+   its master's version list that follows it: the next entry, or the master *)
+Definition successor_in (mt : list (Z * kwargs)) (ver : vrow) (l2 : list vrow) : nres :=
+  match l2 with
+  | x :: _ => NVer x
+  | [] => match row_of (v_master ver) mt with Some r => NMas (v_master ver) r | None => NNone end
+  end.
+Definition vval_eqb (a b : val) : bool :=
+  match a, b with
+  | VNull, VNull => true
+  | VInt x, VInt y => Z.eqb x y
+  | VStr x, VStr y => (fix eq (p q : list N) : bool :=
+                         match p, q with
+                         | [], [] => true
+                         | i :: p', j :: q' => N.eqb i j && eq p' q'
+                         | _, _ => false
+                         end) x y
+  | _, _ => false
+  end.
+Definition oval_eqb (a b : option val) : bool :=
+  match a, b with Some x, Some y => vval_eqb x y | None, None => true | _, _ => false end.
+(* getChangedFields: the master's columns (in sqlmeta.columns order) whose value differs from the successor's *)
+Definition diff_cols (a b : kwargs) : list col :=
+  filter (fun c => negb (oval_eqb (kw_get c a) (kw_get c b))) all_cols.
+Definition next_outcome (n : nres) : voutcome :=
+  match n with NVer x => VNextV x | NMas m r => VNextM m r | NNone => VExn XNotFound end.
+Definition changed_outcome (ver : vrow) (n : nres) : voutcome :=
+  match n with
+  | NVer x => VFields (diff_cols (v_vals ver) (v_vals x))
+  | NMas _ r => VFields (diff_cols (v_vals ver) r)
+  | NNone => VExn XNotFound
+  end.
+(* the two read-only operations; None: o is not one of them.  `t` = the
+   version table nextVersion's SELECT reads (since 7323516 the one of the version's own connection) *)
+Definition vquery (t : list vrow) (st : vstate) (o : vop) : option voutcome :=
+  match o with
+  | VNext vid =>
+      Some (match find_version vid (v_tbl st) with
+            | None => VExn XNotFound
+            | Some ver => next_outcome (next_in t (m_tbl st) ver)
+            end)
+  | VChanged vid =>
+      Some (match find_version vid (v_tbl st) with
+            | None => VExn XNotFound
+            | Some ver => changed_outcome ver (next_in t (m_tbl st) ver)
+            end)
+  | _ => None
+  end.
 
 (* UNIQUE(a): NULLs never collide *)
 Definition same_key (x y : val) : bool :=
@@ -92,11 +177,11 @@ Definition vupdate (st : vstate) (m : Z) (kw : kwargs) : vstate * voutcome :=
         let w := sort_cols kw in
         if a_conflict (Some m) w (m_tbl st) then
           ({| m_tbl := m_tbl st; m_next := m_next st; v_tbl := v_tbl st ++ [ver]; v_next := v_next st + 1;
-              hist := hist st |}, VExn XDuplicate)
+              hist := hist st; arch := arch st ++ [ver]; gone := gone st |}, VExn XDuplicate)
         else
           ({| m_tbl := tbl_update m w (m_tbl st); m_next := m_next st;
               v_tbl := v_tbl st ++ [ver]; v_next := v_next st + 1;
-              hist := hist_push m (row_update w r) (hist st) |}, VDone)
+              hist := hist_push m (row_update w r) (hist st); arch := arch st ++ [ver]; gone := gone st |}, VDone)
   end.
 
 (* set() with a keyword it does not know: RowUpdateSignal goes out first with
@@ -112,7 +197,8 @@ Definition vrefuse (st : vstate) (m : Z) (kw : kwargs) : vstate * voutcome :=
       else
         ({| m_tbl := m_tbl st; m_next := m_next st;
             v_tbl := v_tbl st ++ [{| v_id := v_next st; v_master := m; v_vals := r |}]; v_next := v_next st + 1;
-            hist := hist st |}, VExn XTypeError)
+            hist := hist st;
+            arch := arch st ++ [{| v_id := v_next st; v_master := m; v_vals := r |}]; gone := gone st |}, VExn XTypeError)
   end.
 
 Definition vstep (st : vstate) (o : vop) : vstate * voutcome :=
@@ -127,7 +213,7 @@ Definition vstep (st : vstate) (o : vop) : vstate * voutcome :=
             let id := m_next st in
             ({| m_tbl := m_tbl st ++ [(id, sort_cols kw2)]; m_next := id + 1;
                 v_tbl := v_tbl st; v_next := v_next st;
-                hist := hist_push id (sort_cols kw2) (hist st) |}, VDone)
+                hist := hist_push id (sort_cols kw2) (hist st); arch := arch st; gone := gone st |}, VDone)
       end
   | VAssign m c v => vupdate st m [(c, v)]
   | VSet m kw0 => vupdate st m (mk_kw kw0)
@@ -135,8 +221,31 @@ Definition vstep (st : vstate) (o : vop) : vstate * voutcome :=
   | VRestore vid =>
       match find_version vid (v_tbl st) with
       | None => (st, VExn XNotFound)
-      | Some ver => vupdate st (v_master ver) (v_vals ver)
+      | Some ver =>
+          (* masterClass.get(masterID): SQLObjectNotFound when the master was destroyed *)
+          match row_of (v_master ver) (m_tbl st) with
+          | None => (st, VExn XNotFound)
+          | Some _ => vupdate st (v_master ver) (v_vals ver)
+          end
       end
+  | VDestroy m =>
+      (* DELETE FROM master WHERE id = m; the versions are not touched *)
+      match row_of m (m_tbl st) with
+      | None => (st, VNoHandle)
+      | Some _ =>
+          ({| m_tbl := tbl_delete m (m_tbl st); m_next := m_next st; v_tbl := v_tbl st; v_next := v_next st;
+              hist := hist st; arch := arch st; gone := gone st |}, VDone)
+      end
+  | VDestroyVer vid =>
+      match find_version vid (v_tbl st) with
+      | None => (st, VExn XNotFound)
+      | Some _ =>
+          ({| m_tbl := m_tbl st; m_next := m_next st;
+              v_tbl := filter (fun x => negb (Z.eqb (v_id x) vid)) (v_tbl st); v_next := v_next st;
+              hist := hist st; arch := arch st; gone := vid :: gone st |}, VDone)
+      end
+  | VNext _ | VChanged _ =>
+      match vquery (v_tbl st) st o with Some out => (st, out) | None => (st, VNoHandle) end
   end.
 
 Record vrec := { w_pre : vstate; w_op : vop; w_out : voutcome; w_post : vstate }.
@@ -147,6 +256,7 @@ Fixpoint vrun (st : vstate) (ops : list vop) : list vrec :=
       let x := vstep st o in
       {| w_pre := st; w_op := o; w_out := snd x; w_post := fst x |} :: vrun (fst x) r
   end.
+Definition successor (st : vstate) (ver : vrow) (l2 : list vrow) : nres := successor_in (m_tbl st) ver l2.
 Definition vfinal (st : vstate) (ops : list vop) : vstate := fold_left (fun s o => fst (vstep s o)) ops st.
 
 (* the histories the open findings exclude: those in which an update
@@ -161,16 +271,28 @@ Definition db_refused (w : vrec) : bool :=
   | _, VExn XDuplicate => true
   | _, _ => false
   end.
+(* a destroySelf() of a master or of a version that went through *)
+Definition destroyed (w : vrec) : bool :=
+  match w_op w, w_out w with
+  | VDestroy _, VDone | VDestroyVer _, VDone => true
+  | _, _ => false
+  end.
+(* vguard: no refused-after-the-signal update and nothing destroyed (on the
+   histories of create/assign/set/restore this is the guard of the earlier
+   rounds); vguard_r: only the refusals are excluded, destroys may occur *)
 Definition vguard_from (st : vstate) (ops : list vop) : bool :=
-  forallb (fun w => negb (db_refused w)) (vrun st ops).
+  forallb (fun w => negb (db_refused w) && negb (destroyed w)) (vrun st ops).
 Definition vguard (ops : list vop) : bool := vguard_from vinit ops.
+Definition vguard_r_from (st : vstate) (ops : list vop) : bool :=
+  forallb (fun w => negb (db_refused w)) (vrun st ops).
+Definition vguard_r (ops : list vop) : bool := vguard_r_from vinit ops.
 
 (* the master an update operation addresses in a given state *)
 Definition vtarget (st : vstate) (o : vop) : option Z :=
   match o with
   | VAssign m _ _ | VSet m _ | VSetBad m _ => Some m
   | VRestore vid => match find_version vid (v_tbl st) with Some ver => Some (v_master ver) | None => None end
-  | VCreate _ => None
+  | VCreate _ | VDestroy _ | VDestroyVer _ | VNext _ | VChanged _ => None
   end.
 
 (* ------------------------------------------------------------------ *)
@@ -181,12 +303,16 @@ Definition vtarget (st : vstate) (o : vop) : option Z :=
    (rowUpdate passes instance._connection), master.versions
    (Versioning.__get__ passes obj._connection) and, since 61db062,
    Version.restore() (it fetches the master on the version's connection).
-   The class's own database is never touched. *)
+   The class's own database is never touched.  Since 7323516
+   Version.nextVersion() passes the version's connection to its SELECT too:
+   the later versions are looked up where the version lives (before, they were
+   looked up in the CLASS's own database, the decoy). *)
 Record wstate := { w_main : vstate; w_decoy : vstate }.
 
 Definition wstep (foreign : bool) (ws : wstate) (o : vop) : wstate * voutcome :=
   let x := vstep (w_main ws) o in
   ({| w_main := fst x; w_decoy := w_decoy ws |}, snd x).
+Definition is_query (o : vop) : bool := match o with VNext _ | VChanged _ => true | _ => false end.
 Definition wfinal (foreign : bool) (ws : wstate) (ops : list vop) : wstate :=
   fold_left (fun s o => fst (wstep foreign s o)) ops ws.
 
